@@ -1074,10 +1074,11 @@ func (m *Mon) C07post(n *node.Node, l *node.Leg) {
 	tok := a[0]
 	if isSys(c.Caller) && l.Msg == nil {
 		old := c.Recipient
-		if hasRoleInStorage(n.W, old, tok, RoleCreate) {
+		self := bytes.Equal(old, a[1]) // handed to the holder itself: it keeps both (checked as new holder below)
+		if !self && hasRoleInStorage(n.W, old, tok, RoleCreate) {
 			m.viol("C07", "handover-old-keeps-role", "after the hand-over leg the old holder still has the create role", l)
 		}
-		if ctr := counterInStorage(n.W, old, tok); ctr != 0 {
+		if ctr := counterInStorage(n.W, old, tok); !self && ctr != 0 {
 			m.viol("C07", "handover-old-keeps-counter", fmt.Sprintf("after the hand-over leg the old holder still has counter %d", ctr), l)
 		}
 		newH := a[1]
